@@ -151,6 +151,44 @@ Theorem C05_transform_total_rgb : forall p xcs, valid p ->
 Proof. intros p xcs Vp. apply transform_api_refines; [assumption | apply rows_xyz_row6]. Qed.
 Print Assumptions C05_transform_total_rgb.
 
+(* --- 10. rescale (t := s*t, the only in-place method) commutes with every operation, so the laws hold for the
+         pose as it is NOW after any rescaling: the inverse of the rescaled pose is the rescaled inverse, etc. *)
+Theorem C05_rescale_commutes : forall s p ps x,
+  inverse (rescale s p) =p= rescale s (inverse p) /\
+  compose_from (rescale s p) (map (rescale s) ps) =p= rescale s (compose_from p ps) /\
+  transform (rescale s p) (vscale s x) =v= vscale s (transform p x).
+Proof. intros. split; [|split]; [apply inverse_rescale | apply compose_from_rescale | apply transform_rescale]. Qed.
+Print Assumptions C05_rescale_commutes.
+
+Theorem C05_rescale_keeps_laws : forall s p, valid p ->
+  compose2 (rescale s p) (inverse (rescale s p)) =p= pid /\
+  compose2 (inverse (rescale s p)) (rescale s p) =p= pid /\
+  inverse (inverse (rescale s p)) =p= rescale s p.
+Proof. exact rescale_keeps_laws. Qed.
+Print Assumptions C05_rescale_keeps_laws.
+
+(* --- 11. objects hold nothing but their current (r, t): after ANY program of inverse / compose / rescale
+         steps on the same objects, inverting object i creates a new object equal to the inverse of what object i
+         holds now (no memory of earlier calls); inverse / compose never change an existing object; rescale
+         changes its target only.  MPose.CHistory checks the real objects against this store semantics. *)
+Theorem C05_history_inverse_current : forall st ops st1 i p st2,
+  hrun st ops = Some st1 -> nth_error st1 i = Some (lift p) -> valid p ->
+  hstep st1 (HInverse i) = Some st2 ->
+  exists m, st2 = st1 ++ [m] /\ oeq m (lift (inverse_impl p)).
+Proof. exact history_inverse_current. Qed.
+Print Assumptions C05_history_inverse_current.
+
+Theorem C05_history_objects_unchanged : forall st op st' j x, (forall i s, op <> HRescale i s) ->
+  hstep st op = Some st' -> nth_error st j = Some x -> nth_error st' j = Some x.
+Proof. exact hstep_keeps_objects. Qed.
+Print Assumptions C05_history_objects_unchanged.
+
+Theorem C05_history_rescale_only_target : forall st i s st', hstep st (HRescale i s) = Some st' ->
+  exists p, nth_error st i = Some p /\ nth_error st' i = Some (rescale_api s p) /\
+            length st' = length st /\ forall j, j <> i -> nth_error st' j = nth_error st j.
+Proof. exact hstep_rescale. Qed.
+Print Assumptions C05_history_rescale_only_target.
+
 (* --- non-vacuity: concrete non-unit, non-commuting poses in the domain; every clause bites *)
 Definition ex_a : pose := mkP (mkQ 1 2 3 4) (mkV 1 0 (-2)).
 Definition ex_b : pose := mkP (mkQ 0 (1 # 2) (1 # 2) 0) (mkV 5 (-7 # 3) 1000000).
@@ -168,6 +206,14 @@ Proof.
   - intros H. vm_compute in H. destruct H as [_ [H _]]. discriminate.
   - vm_compute. reflexivity.
 Qed.
+
+(* a history: invert, rescale the pose, invert again: the second inverse is NOT the first one *)
+Example C05_example_history :
+  match hrun [lift ex_a] [HInverse 0; HRescale 0 (5 # 2); HInverse 0] with
+  | Some [a; i1; i2] => opose_eqb a (lift (rescale (5 # 2) ex_a)) = true /\ opose_eqb i1 i2 = false
+  | _ => False
+  end.
+Proof. vm_compute. split; reflexivity. Qed.
 
 (* outcomes outside the quantifier are modelled, not hidden *)
 Example C05_example_outside :
